@@ -128,11 +128,19 @@ def write_ninja():
     arch = os.path.join(obj, "libvpengine.a")
     L.append("build %s: ar %s" % (arch, " ".join(eng_objs)))
     bins = []
+    # the activation helper's validation chain, compiled as its test variant (configuration from TEST_LAUNCH_HELPER_CONFIG, no setuid checks)
+    helper_o = os.path.join(obj, "repo_activation_helper_test.o")
+    L.append("rule crepo\n  command = clang %s -DDBUS_COMPILATION -DHAVE_CONFIG_H -D_GNU_SOURCE $extra %s -MD -MF $out.d -c $in -o $out\n  depfile = $out.d\n  deps = gcc\n  description = CC $out" % (SAN_CFLAGS, inc))
+    L.append("build %s: crepo %s\n  extra = -DACTIVATION_LAUNCHER_TEST" % (helper_o, os.path.join(REPO, "bus", "activation-helper.c")))
+    L.append("rule linkhelper\n  command = $cxx $ldsan $in -o $out %s/lib/liblaunch-helper-internal.a %s/lib/libdbus-internal.a %s -lexpat -lpthread -lrt\n  description = LINK $out" % (SAN, SAN, dbus1_static))
     for name, (fn, extra, fuzz) in target_table().items():
         o = os.path.join(obj, name + ".o")
         L.append("build %s: cc %s\n  extra = %s %s" % (o, os.path.join(VERIF, "targets", fn), extra, "-fsanitize=fuzzer-no-link"))
         b = os.path.join(binp, name)
-        L.append("build %s: link %s %s | %s\n  ldsan = %s" % (b, o, arch, " ".join(libs), "-fsanitize=fuzzer,address,undefined" if fuzz else "-fsanitize=address,undefined"))
+        if name.startswith("c19_helper"):
+            L.append("build %s: linkhelper %s %s %s | %s %s/lib/liblaunch-helper-internal.a\n  ldsan = %s" % (b, o, helper_o, arch, " ".join(libs), SAN, "-fsanitize=fuzzer,address,undefined" if fuzz else "-fsanitize=address,undefined"))
+        else:
+            L.append("build %s: link %s %s | %s\n  ldsan = %s" % (b, o, arch, " ".join(libs), "-fsanitize=fuzzer,address,undefined" if fuzz else "-fsanitize=address,undefined"))
         bins.append(b)
     tooldir = os.path.join(VERIF, "tools")
     if os.path.isdir(tooldir):
